@@ -181,7 +181,12 @@ func (e *Env) AttrValue(r *rand.Rand, el, key string) string {
 		if v == "" {
 			v = "x"
 		}
-		return strings.Repeat(v, 1100/len(v)+1+r.Intn(3))
+		long := strings.Repeat(v, 1100/len(v)+1+r.Intn(3))
+		if r.Intn(2) == 0 {
+			// a long in-language prefix with a tail that is not: matchers must see the whole value
+			long += gen.Pick(r, []string{"<x>", "\"", " onerror=alert(1)", "!", "\x00", "Z z", "é"})
+		}
+		return long
 	}
 	return e.attrValue(r, el, key)
 }
